@@ -189,6 +189,8 @@ func run(c *hk.Ctx) {
 	for _, s := range en2.Schedules {
 		runSchedule(c, ctl, s, false)
 	}
+	mcp.VerifSetYield(nil)
+	runRaceStress(c)
 }
 
 var runNo int
